@@ -605,7 +605,8 @@ def views_oracle(spec):
     cls = ['other:' + ot['kind'], 'rel:' + rel, 'analysed:%s' % spec['analysed'], 'src:' + spec['a']['src'],
            'vfam:' + spec['a']['vfam']]
     nt = rel in ('equal', 'up', 'down', 'within_error')
-    if spec['analysed']:
+    # (an observable built from a covariance input carries its error from the start: 'value(error)' prior strings, cov_Obs)
+    if spec['analysed'] or (spec['a']['src'] == 'cov' and not spec.get('gm')):
         E = float(a.dvalue)
         sigma = spec['sigma']
         want = bool(abs(V) <= sigma * E)
